@@ -170,6 +170,11 @@ type SCEVGenericExpr struct {
 	X  SCEV
 	Y  SCEV
 
+	// Commutative marks an expression taken from a source-level integer + * & | ^: its operands
+	// are printed in string order, as the canonicalizer prints the operands of such a BinOp, so
+	// that `a & 7` and `7 & a` as a loop bound give the same text.
+	Commutative bool
+
 	nodes int // memo of scevNodes, 0 = not computed yet
 }
 
@@ -209,10 +214,18 @@ func (s *SCEVGenericExpr) IsLoopInvariant(loop *Loop) bool {
 	return s.X.IsLoopInvariant(loop) && s.Y.IsLoopInvariant(loop)
 }
 func (s *SCEVGenericExpr) String() string {
-	return fmt.Sprintf("(%s %s %s)", s.X.String(), s.Op.String(), s.Y.String())
+	x, y := s.X.String(), s.Y.String()
+	if s.Commutative && y < x {
+		x, y = y, x
+	}
+	return fmt.Sprintf("(%s %s %s)", x, s.Op.String(), y)
 }
 func (s *SCEVGenericExpr) StringWithRenamer(r Renamer) string {
-	return fmt.Sprintf("(%s %s %s)", s.X.StringWithRenamer(r), s.Op.String(), s.Y.StringWithRenamer(r))
+	x, y := s.X.StringWithRenamer(r), s.Y.StringWithRenamer(r)
+	if s.Commutative && y < x {
+		x, y = y, x
+	}
+	return fmt.Sprintf("(%s %s %s)", x, s.Op.String(), y)
 }
 func (s *SCEVGenericExpr) Name() string                  { return "scev_expr" }
 func (s *SCEVGenericExpr) Type() types.Type              { return types.Typ[types.Int] }
@@ -748,7 +761,7 @@ func computeSCEVBody(v ssa.Value, loop *Loop, depth int) SCEV {
 			block := binOp.Block()
 			return &SCEVUnknown{Value: v, IsInvariant: block != nil && !loop.Blocks[block]}
 		}
-		return foldSCEV(binOp.Op, left, right, loop)
+		return foldSCEV(binOp.Op, left, right, commutativeIntOp(binOp))
 	}
 	if instr, ok := v.(ssa.Instruction); ok {
 		block := instr.Block()
@@ -771,6 +784,18 @@ func SCEVFromConst(c *ssa.Const) SCEV {
 	return &SCEVUnknown{Value: c, IsInvariant: true}
 }
 
-func foldSCEV(op token.Token, left, right SCEV, loop *Loop) SCEV {
-	return &SCEVGenericExpr{Op: op, X: left, Y: right}
+func foldSCEV(op token.Token, left, right SCEV, commutative bool) SCEV {
+	return &SCEVGenericExpr{Op: op, X: left, Y: right, Commutative: commutative}
+}
+
+// commutativeIntOp reports whether exchanging the operands of b cannot change its value:
+// + * & | ^ on integers (string + is not commutative, floats are left alone).
+func commutativeIntOp(b *ssa.BinOp) bool {
+	switch b.Op {
+	case token.ADD, token.MUL, token.AND, token.OR, token.XOR:
+		if t, ok := b.Type().Underlying().(*types.Basic); ok {
+			return t.Info()&types.IsInteger != 0
+		}
+	}
+	return false
 }
